@@ -1,5 +1,6 @@
 import Nstd.Server.LemmasC14F
 import Nstd.Server.BatchC14
+import Nstd.Server.KeepsC14
 /-
   C14 — property theorems about the transition-system model of `Server::run()` (ModelC14.lean).
 
@@ -282,9 +283,9 @@ theorem failed_read_queues_close (s : St) (i : Id) (c : ClientS) (hc : s.clients
     (hp : c.peerClosed = true) : i ∈ (applyAct s none (.read i)).closing :=
   read_failure_queues s i c hc h0 hp
 
-/-- a write whose send fails queues the client for onClosed -/
+/-- a write whose send fails (error, or 0 bytes accepted) queues the client for onClosed -/
 theorem failed_write_queues_close (s : St) (i : Id) (c : ClientS) (n : Nat) (o : Outcome)
-    (hc : s.clients i = some c) (h0 : c.backlog = 0) (he : sendOn c n o = .error) :
+    (hc : s.clients i = some c) (h0 : c.backlog = 0) (he : sendOn c n o = .error ∨ sendOn c n o = .sent 0) :
     i ∈ (applyAct s none (.write i n o)).closing :=
   write_failure_queues s i c n o hc h0 he
 
@@ -301,6 +302,59 @@ theorem poll_only_after_closing (ms : List Move) (inp : PollIn) (o : Outcome) (n
     (hpc : (reach ms).pc = .closing now tmo) :
     (∃ tmo', (step (reach ms) inp o).1.pc = .poll now tmo') → (reach ms).closing = [] :=
   closing_then_poll _ inp o now tmo hpc
+
+/-- a client queued for onClosed stays queued across every API call and callback script until it is deleted -/
+theorem closing_membership_persists (s : St) (nc : Option Id) (acts : List Act) (i : Id) (h : i ∈ s.closing) :
+    i ∈ (runActs s nc acts).closing ∨ (runActs s nc acts).gone i = true :=
+  (runActs_keeps i s nc acts).1 h
+
+theorem runSteps_inv (s : St) (l : List (PollIn × Outcome)) (h : Inv s) : Inv (runSteps s l).1 := by
+  induction l generalizing s with
+  | nil => exact h
+  | cons a r ih => obtain ⟨inp, o⟩ := a; exact ih _ (inv_move s (.step inp o) h)
+
+theorem runSteps_gone (s : St) (l : List (PollIn × Outcome)) (i : Id) (h : s.gone i = true) :
+    (runSteps s l).1.gone i = true := by
+  induction l generalizing s with
+  | nil => exact h
+  | cons a r ih => obtain ⟨inp, o⟩ := a; exact ih _ ((step_rel s inp o).1 i h)
+
+theorem failed_io_then_onClosed_aux (s : St) (hinv : Inv s) (i : Id) (hi : i ∈ s.closing) (hl : InLoop s)
+    (l : List (PollIn × Outcome)) :
+    Ev.onClosed i ∈ (runSteps s l).2 ∨ (runSteps s l).1.gone i = true ∨
+      (i ∈ (runSteps s l).1.closing ∧ InLoop (runSteps s l).1) := by
+  induction l generalizing s with
+  | nil => exact Or.inr (Or.inr ⟨hi, hl⟩)
+  | cons a r ih =>
+    obtain ⟨inp, o⟩ := a
+    simp only [runSteps]
+    rcases closing_member_step s inp o hinv.s i hi hl with h | h | ⟨h1, h2⟩
+    · exact Or.inl (List.mem_append_left _ h)
+    · exact Or.inr (Or.inl (runSteps_gone _ r i h))
+    · rcases ih _ (inv_move s (.step inp o) hinv) h1 h2 with h | h | h
+      · exact Or.inl (List.mem_append_right _ h)
+      · exact Or.inr (Or.inl h)
+      · exact Or.inr (Or.inr h)
+
+/-- failed_io_then_onClosed (history level): a client that is queued for onClosed — by a failed read or write,
+    `failed_read_queues_close` / `failed_write_queues_close` — while run() is in its timer or closing loop: along
+    ANY sequence of further steps of run() (any callback scripts, any kernel answers), either onClosed has been
+    delivered to it, or it has been deleted, or it is still queued and run() is still in front of the poll.
+    In particular run() does not poll again before the client got its onClosed or was removed. -/
+theorem failed_io_then_onClosed (ms : List Move) (i : Id) (hi : i ∈ (reach ms).closing) (hl : InLoop (reach ms))
+    (l : List (PollIn × Outcome)) :
+    Ev.onClosed i ∈ (runSteps (reach ms) l).2 ∨ (runSteps (reach ms) l).1.gone i = true ∨
+      (i ∈ (runSteps (reach ms) l).1.closing ∧ InLoop (runSteps (reach ms) l).1) :=
+  failed_io_then_onClosed_aux (reach ms) (inv_reach ms) i hi hl l
+
+/-- corollary: once run() stands at the poll again, every client that was queued has got onClosed or is gone -/
+theorem at_poll_closed_or_gone (ms : List Move) (i : Id) (hi : i ∈ (reach ms).closing) (hl : InLoop (reach ms))
+    (l : List (PollIn × Outcome)) (now tmo : Int) (hp : (runSteps (reach ms) l).1.pc = .poll now tmo) :
+    Ev.onClosed i ∈ (runSteps (reach ms) l).2 ∨ (runSteps (reach ms) l).1.gone i = true := by
+  rcases failed_io_then_onClosed ms i hi hl l with h | h | ⟨_, h⟩
+  · exact Or.inl h
+  · exact Or.inr h
+  · rcases h with ⟨n, h⟩ | ⟨n, t, h⟩ <;> rw [hp] at h <;> cases h
 
 /-- a failing send in the write-ready branch is followed by onClosed in the same step -/
 theorem failed_write_ready_calls_onClosed (s : St) (i : Id) (c : ClientS) (o : Outcome)
